@@ -145,8 +145,9 @@ func opBaseFee(pc *uint64, interpreter *EVMInterpreter, callContext *callCtx) ([
 }
 
 func opBlobHash(pc *uint64, interpreter *EVMInterpreter, scope *callCtx) ([]byte, error) {
+	// no transaction on this chain carries blobs: every index is out of range
 	index := scope.stack.peek()
-	index.SetBytes32([]byte{})
+	index.Clear()
 	return nil, nil
 }
 
